@@ -797,3 +797,17 @@ package zerolog
 //@   ensures ncalls(Context.Value) == old(ncalls(Context.Value)) + 1
 //@   ensures typeis(callres(Context.Value, old(ncalls(Context.Value)), 0), "*Logger") || l.level != Disabled ==> ncalls(context.WithValue) == old(ncalls(context.WithValue)) + 1 && callarg(context.WithValue, old(ncalls(context.WithValue)), 0) == ctx && res == callres(context.WithValue, old(ncalls(context.WithValue)), 0)
 //@   ensures typeis(callres(Context.Value, old(ncalls(Context.Value)), 0), "*Logger") || l.level != Disabled ==> typeis(callarg(context.WithValue, old(ncalls(context.WithValue)), 2), "*Logger") && fresh(dyn(callarg(context.WithValue, old(ncalls(context.WithValue)), 2), "*Logger")) && same(dyn(callarg(context.WithValue, old(ncalls(context.WithValue)), 2), "*Logger").context, l.context) && dyn(callarg(context.WithValue, old(ncalls(context.WithValue)), 2), "*Logger").w == l.w && dyn(callarg(context.WithValue, old(ncalls(context.WithValue)), 2), "*Logger").level == l.level
+
+// C03: the hooks zerolog adds itself (timestamp, caller) go to the END of the
+// logger's hook list, after everything registered by the ancestors.
+//@ func (Context).Timestamp(c) res
+//@   flag frontend
+//@   ensures [C03] len(res.l.hooks) == len(c.l.hooks) + 1 && (forall k in 0..len(c.l.hooks): res.l.hooks[k] == c.l.hooks[k]) && typeis(res.l.hooks[len(c.l.hooks)], "timestampHook")
+
+//@ func (Context).Caller(c) res
+//@   flag frontend
+//@   ensures [C03] len(res.l.hooks) == len(c.l.hooks) + 1 && (forall k in 0..len(c.l.hooks): res.l.hooks[k] == c.l.hooks[k]) && typeis(res.l.hooks[len(c.l.hooks)], "callerHook")
+
+//@ func (Context).CallerWithSkipFrameCount(c, skipFrameCount) res
+//@   flag frontend
+//@   ensures [C03] len(res.l.hooks) == len(c.l.hooks) + 1 && (forall k in 0..len(c.l.hooks): res.l.hooks[k] == c.l.hooks[k]) && typeis(res.l.hooks[len(c.l.hooks)], "callerHook")
